@@ -169,6 +169,8 @@ def packages(mods: str) -> Iterator[tuple]:
     for m in mods:
         xs: list = [None, "attr", ("imp", "ext")] + [("imp", o) for o in mods if o != m]  # the visitor records no alias for `from <itself> import x`
         stars: list = [None, *mods]
+        if len(mods) == 2:
+            stars += [f"{o}_" for o in mods]  # star import through another name of the module (`from pkg import a as a_` in the package)
         per_module.append([(x, s) for x in xs for s in stars])
     yield from itertools.product(*per_module)
 
@@ -182,7 +184,7 @@ def fmt_pkg(mods: str, g: tuple) -> str:
         elif x is not None:
             lines.append(f"from {'ext' if x[1] == 'ext' else 'pkg.' + x[1]} import x")
         if star:
-            lines.append(f"from pkg.{star} import *")
+            lines.append(f"from pkg.{star} import *" + (f"  (pkg/__init__.py: from pkg import {star[0]} as {star})" if star.endswith("_") else ""))
         out.append(f"pkg/{m}.py: " + ("; ".join(lines) or "(empty)"))
     return " | ".join(out)
 
@@ -210,6 +212,9 @@ class PackageTable:
         ms = {m: self.new("Module", m, filepath=self.PP(f"/s/pkg/{m}.py")) for m in mods}
         for m, o in ms.items():
             self.setm(pkg, m, o)
+        for star in {st for _x, st in g if st and st.endswith("_")}:
+            self.setm(pkg, star, self.new("Alias", star, f"pkg.{star[0]}", lineno=1, endlineno=1))
+            pkg.attrs["imports"][star] = f"pkg.{star[0]}"
         for m, (x, star) in zip(mods, g):
             o = ms[m]
             if x == "attr":
